@@ -304,12 +304,19 @@ def written_by_pyjelly(case, acc):
     stmts = case["statements"]
     if not stmts:
         return None
-    for integ, entry in WRITERS:
+    flows = [None]
+    if case["phys"] != "GRAPHS" and len(stmts) >= 2:
+        # an explicit bounded flow cuts frames in either mode: written back to back without length prefixes they are,
+        # by protobuf's rules, still one frame
+        flows.append("FlatTriplesFrameFlow" if case["phys"] == "TRIPLES" else "FlatQuadsFrameFlow")
+    for integ, entry, flow in [(i_, e_, f_) for i_, e_ in WRITERS for f_ in flows]:
         outs = {}
         for mode in (True, False):
             cfg = {"integration": integ, "entry": entry, "phys": case["phys"], "logical": 1 if case["phys"] == "TRIPLES" else 2,
-                   "delimited": mode, "frame_size": 2, "preset": case["preset"], "statements": stmts,
+                   "delimited": mode, "frame_size": 2 if flow is None else 1, "preset": case["preset"], "statements": stmts,
                    "params": {"generalized": integ == "generic", "rdf_star": integ == "generic", "stream_name": ""}}
+            if flow is not None:
+                cfg["flow"] = flow
             try:
                 data, _ = scen.write_rdflib(cfg) if integ == "rdflib" else scen.write_generic(cfg)
             except Exception as exc:  # noqa: BLE001
